@@ -223,7 +223,7 @@ def run_c10(prop, tier):
     for ci in range(ncont):
         nex = [2, 0, 1][ci % 3]
         for mode in ("one", "two", "none"):
-            scn = L.make_container(rng, 100 + ci, n_extras=nex, concat=mode, big=(ci % 4 == 3))
+            scn = L.make_container(rng, 100 + ci, n_extras=nex, concat=mode, big=(ci % 4 == 3), extra_ids=[5, 2] if (nex == 2 and mode == "none") else None)
             w = R.create(scn, "w")
             if w is None:
                 continue
@@ -250,6 +250,18 @@ def run_c10(prop, tier):
                                   {"order": order, "tool": te})
                     continue
                 R.config(w, out, {"mode": mode, "extras": nex, "op": "concat", "order": [w.names[f] for f in order]})
+                if oi == 0 and len(order) == len(files):
+                    # every pack is inside the concatenated file: whatever lies at the recorded locations (a truncated copy,
+                    # an empty file, bytes that are no pack at all) is never needed
+                    for fn in sorted(others):
+                        p2 = os.path.join(w.dir, fn)
+                        for how in ("truncated", "empty", "junk"):
+                            shutil.copy(p2, p2 + ".bak")
+                            data = open(p2, "rb").read()
+                            with open(p2, "wb") as f:
+                                f.write({"truncated": data[:len(data) // 2], "empty": b"", "junk": bytes(rng.randrange(256) for _ in range(100))}[how])
+                            R.config(w, out, {"mode": mode, "extras": nex, "op": "concat+stale-file", "file": w.names[fn], "how": how})
+                            shutil.move(p2 + ".bak", p2)
                 if oi == 0 or (tier == "thorough" and oi % 7 == 0):
                     for n in (1, 63, 64, 4096):
                         shutil.copy(p, p + ".bak")
@@ -295,8 +307,10 @@ def run_c11(prop, tier):
     ncont = 1 if tier == "quick" else 6
     for ci in range(ncont):
         for mode in ("two", "none", "one"):
-            scn = L.make_container(rng, 200 + ci, n_entries=6, n_extras=2, concat=mode)
-            other = L.make_container(rng, 300 + ci, n_entries=4, n_extras=2, concat=mode)
+            # pack ids need not be 1..n: the extra packs of the 'two' packaging (and of every other container in thorough) get ids 3 and 9
+            sparse = [3, 9] if (mode == "two" or ci % 2 == 1) else None
+            scn = L.make_container(rng, 200 + ci, n_entries=6, n_extras=2, concat=mode, extra_ids=sparse)
+            other = L.make_container(rng, 300 + ci, n_entries=4, n_extras=2, concat=mode, extra_ids=sparse)
             w = R.create(scn, "w")
             wo = R.create(other, "other")
             if w is None or wo is None:
